@@ -43,8 +43,13 @@ class StreamFault(IOError):
     pass
 
 
+NONE = 'N'   # an item of a stream's hand-out sequence: the stream returns / yields None at that call (ASGI only)
+
+
 class Probe:
-    """What a generated stream does: hands out the chunks, raises at the `fail`-th call, counts close()."""
+    """What a generated stream does: hands out the items (byte strings, or NONE = the stream hands out None), raises
+    at the `fail`-th call, counts close().  step() returns None once the items are exhausted (the stream then ends
+    the way its kind does: b'' / StopIteration / StopAsyncIteration / return)."""
 
     def __init__(self, chunks, fail):
         self.chunks, self.fail, self.calls, self.closed, self.finalized = list(chunks), fail, 0, 0, 0
@@ -94,6 +99,8 @@ def make_stream(kind, probe):
         class AF:
             async def read(self, n=-1):
                 c = probe.step()
+                if c is NONE:
+                    return None
                 return b'' if c is None else c
         if kind == 'afile':
             async def close(self):
@@ -109,7 +116,8 @@ def make_stream(kind, probe):
                 c = probe.step()
                 if c is None:
                     raise StopAsyncIteration
-                return c
+                # "async iterators must return None instead of raising StopIteration" (falcon.asgi.Response.stream)
+                return None if c is NONE else c
         if kind == 'aiter':
             async def close(self):
                 probe.closed += 1
@@ -122,14 +130,50 @@ def make_stream(kind, probe):
                     c = probe.step()
                     if c is None:
                         return
-                    yield c
+                    # "one can simply yield None" to end the body (falcon.asgi.Response.stream)
+                    yield None if c is NONE else c
             finally:
                 probe.finalized += 1
         return ag()
     raise ValueError(kind)
 
 
-def gen_plan(rnd, sse_ok=True, errors_ok=True):
+MEDIA_KINDS = ['dict', 'dict', 'empty-dict', 'zero', 'str', 'list', 'unserialisable']
+
+
+def gen_hist(rnd, p):
+    """A *history* on one response that ends in the plan's text/data/media: each attribute is assigned 0-3 times (other
+    values of its pool and None first, the plan's value last) and 1-3 calls of the public resp.render_body() (what an
+    ETag / logging / compression hook does) happen in between.  Two shapes: 'mixed' - the three assignment sequences are
+    interleaved at random and the calls are placed at random positions; 'blocks' - the attributes are filled in one
+    after the other in a random one of the 6 orders, with a call after each block (so that a call sees every source that
+    a later assignment overrides or is overridden by).  Ops: ['text', v] / ['data', v] / ['media', kind-or-None] / ['render']."""
+    seqs = []
+    for attr, pool in (('text', TEXTS), ('data', DATAS), ('media', MEDIA_KINDS)):
+        earlier = [rnd.choice(pool + [None]) for _ in range(rnd.choice([0, 0, 1, 1, 2]))]
+        seq = [[attr, v] for v in earlier]
+        if p[attr] is not None or earlier or rnd.random() < 0.2:
+            seq.append([attr, p[attr]])
+        seqs.append(seq)
+    ops = []
+    if rnd.random() < 0.5:
+        rnd.shuffle(seqs)
+        for seq in seqs:
+            ops += seq
+            if seq and rnd.random() < 0.8:
+                ops.append(['render'])
+        if not any(op[0] == 'render' for op in ops):
+            ops.insert(rnd.randint(0, len(ops)), ['render'])
+        return ops
+    while any(seqs):
+        seq = rnd.choice([q for q in seqs if q])
+        ops.append(seq.pop(0))
+    for _ in range(rnd.choice([1, 1, 2, 3])):
+        ops.insert(rnd.randint(0, len(ops)), ['render'])
+    return ops
+
+
+def gen_plan(rnd, sse_ok=True, errors_ok=True, hist_ok=False, none_ok=False):
     form, value, code = rnd.choice(STATUSES)
     p = {'status_form': form, 'status': value, 'code': code, 'method': rnd.choice(METHODS)}
     srcs = rnd.sample(['text', 'data', 'media', 'stream'], rnd.choice([0, 1, 1, 1, 1, 2, 2, 3, 4]))
@@ -142,6 +186,10 @@ def gen_plan(rnd, sse_ok=True, errors_ok=True):
         if rnd.random() < 0.2:
             ch.insert(rnd.randint(0, len(ch)), b'')
         p['stream'] = {'kind': kind, 'chunks': ch, 'fail': rnd.choice([None, None, None, 0, 1, 2, 3, 4, 5])}
+        if none_ok:
+            # ASGI only: the stream hands out None at that call (before chunk j; j = len: after the last chunk).  For an
+            # async iterator / generator that is the documented end-of-body marker (the chunks behind it are never sent)
+            p['stream']['none_at'] = rnd.choice([None, None, len(ch), len(ch), rnd.randint(0, len(ch))])
     else:
         p['stream'] = None
     p['cl'] = rnd.choice([None, None, None, '3', '999', 7])
@@ -162,7 +210,70 @@ def gen_plan(rnd, sse_ok=True, errors_ok=True):
     if errors_ok and rnd.random() < 0.12:
         p['raise'] = rnd.choice(['notfound', 'httperror', 'redirect', 'status', 'exception'])
         p['raise_after_fill'] = rnd.random() < 0.4
+    if hist_ok and rnd.random() < 0.35:
+        p['hist'] = gen_hist(rnd, p)
+        p['hist_hdr_first'] = rnd.random() < 0.5
     return p
+
+
+def stream_items(p, asgi):
+    """What the plan's stream object hands out call by call on that stack (NONE = it hands out None)."""
+    st = p['stream']
+    items = list(st['chunks'])
+    if asgi and st.get('none_at') is not None:
+        items.insert(st['none_at'], NONE)
+    return items
+
+
+def hist_hdr_first(p):
+    """In a history plan the header assignments come before the body assignments / render_body() calls or after them.
+    An explicit Content-Type for which no media handler exists always comes first (what render_body() does with media
+    whose type is changed to an unsupported one *after* it was rendered is not something the statement speaks about)."""
+    return bool(p.get('hist_hdr_first')) or p['ct'] not in (None,) + SUPPORTED_MEDIA_TYPES
+
+
+def header_assignments(p):
+    """The header dict assignments (lower-case name, value) the header block of fill() amounts to, in order - by the
+    documentation of set_header / append_header / content_length / content_type."""
+    out = []
+    if p['xa'] is not None:
+        out.append(('x-a', p['xa']))
+    if p['xappend']:
+        out += [('x-b', 'one'), ('x-b', 'one, two')]
+    if p['cl'] is not None:
+        out.append(('content-length', str(p['cl'])))
+    if p['ct'] is not None:
+        out.append(('content-type', p['ct']))
+    return out
+
+
+def hist_render_flags(p):
+    """For every render_body() call of the history: would serialising the media assigned at that moment raise (no
+    handler for the response's type - the explicit one if already assigned, else the default one -, or a value the
+    JSON handler cannot serialise)?  Decided from the documentation, not from falcon."""
+    typ = (p['ct'] if hist_hdr_first(p) else None) or p['dflt']
+    media, flags = None, []
+    for op in p['hist']:
+        if op[0] == 'media':
+            media = op[1]
+        elif op[0] == 'render':
+            flags.append(typ not in SUPPORTED_MEDIA_TYPES or media == 'unserialisable')
+    return flags
+
+
+def hist_typed_by_render(p):
+    """Some render_body() call of the history rendered media (text and data unset at that moment) while the response
+    had no explicit Content-Type: render_body() then stores the default type on the response (root of F16)."""
+    if not p.get('hist') or (hist_hdr_first(p) and p['ct'] is not None):
+        return False
+    cur = {'text': None, 'data': None, 'media': None}
+    for op in p['hist']:
+        if op[0] == 'render':
+            if cur['text'] is None and cur['data'] is None and cur['media'] is not None:
+                return True
+        else:
+            cur[op[0]] = op[1]
+    return False
 
 
 def effective_source(p):
@@ -247,15 +358,37 @@ def fill(resp, p, asgi, snapshot=None):
     if p['raise'] and not p['raise_after_fill']:
         _raise(p)
     resp.status = status_value(p)
-    if p['text'] is not None:
-        resp.text = p['text']
-    if p['data'] is not None:
-        resp.data = p['data']
-    if p['media'] is not None:
-        resp.media = media_value(p['media'])
+    hist = p.get('hist')
+    if hist is not None and hist_hdr_first(p):
+        _fill_headers(resp, p)
+    if hist is None:
+        if p['text'] is not None:
+            resp.text = p['text']
+        if p['data'] is not None:
+            resp.data = p['data']
+        if p['media'] is not None:
+            resp.media = media_value(p['media'])
+    else:
+        renders = []
+        for op in hist:
+            if op[0] == 'text':
+                resp.text = op[1]
+            elif op[0] == 'data':
+                resp.data = op[1]
+            elif op[0] == 'media':
+                resp.media = None if op[1] is None else media_value(op[1])
+            else:
+                # a hook / middleware component looking at the outgoing bytes; it survives a representation that
+                # cannot be rendered (yet)
+                try:
+                    renders.append(_await_now(resp.render_body()) if asgi else resp.render_body())
+                except Exception:  # noqa
+                    renders.append('raises')
+        if snapshot is not None:
+            snapshot['renders'] = renders
     probe = None
     if p['stream'] is not None:
-        probe = Probe(p['stream']['chunks'], p['stream']['fail'])
+        probe = Probe(stream_items(p, asgi), p['stream']['fail'])
         kind = p['stream']['kind']
         resp.stream = make_stream(ASYNC_OF[kind] if asgi else kind, probe)
     if p['sse'] is not None and asgi:
@@ -271,6 +404,18 @@ def fill(resp, p, asgi, snapshot=None):
             if hook is not None:
                 await hook(len(evs))
         resp.sse = emitter()
+    if hist is None or not hist_hdr_first(p):
+        _fill_headers(resp, p)
+    if snapshot is not None:
+        # the response state the Lean model starts from
+        snapshot['hdr'] = list(resp._headers.items())
+        snapshot['cookies'] = [norm_cookie(c.OutputString()) for c in resp._cookies.values()] if resp._cookies else []
+    if p['raise'] and p['raise_after_fill']:
+        _raise(p)
+    return probe
+
+
+def _fill_headers(resp, p):
     if p['xa'] is not None:
         resp.set_header('X-A', p['xa'])
     if p['xappend']:
@@ -286,13 +431,16 @@ def fill(resp, p, asgi, snapshot=None):
         resp.set_cookie('a', 'b')
     if p['unset_cookie']:
         resp.unset_cookie('z')
-    if snapshot is not None:
-        # the response state the Lean model starts from
-        snapshot['hdr'] = list(resp._headers.items())
-        snapshot['cookies'] = [norm_cookie(c.OutputString()) for c in resp._cookies.values()] if resp._cookies else []
-    if p['raise'] and p['raise_after_fill']:
-        _raise(p)
-    return probe
+
+
+def _await_now(coro):
+    """Run a coroutine that never suspends (falcon.asgi.Response.render_body with the handlers used here) to its end."""
+    try:
+        coro.send(None)
+    except StopIteration as e:
+        return e.value
+    coro.close()
+    raise RuntimeError('render_body() suspended')
 
 
 def _raise(p):
@@ -319,13 +467,15 @@ def hs(s):
     return hx(s.encode('latin-1'))
 
 
-def fz_line(p, snapshot):
+def fz_line(p, snapshot, asgi_items=False):
+    """asgi_items: the stream field lists what the stream hands out on ASGI, `N` = None (fztdriver only)."""
     B = lambda b: 'none' if b is None else hx(b)  # noqa: E731
     st = p['stream']
     if st is None:
         stream = '-'
     else:
-        stream = ('f' if st['kind'].startswith('file') else 'i') + ':' + (','.join(hx(c) for c in st['chunks']) or '.')
+        items = stream_items(p, asgi_items)
+        stream = ('f' if st['kind'].startswith('file') else 'i') + ':' + (','.join('N' if c is NONE else hx(c) for c in items) or '.')
     fail = '-' if st is None or st['fail'] is None else st['fail']
     text = None if p['text'] is None else p['text'].encode()
     media = None if p['media'] is None else media_bytes(p['media'])
@@ -343,7 +493,38 @@ def fz_show(status, headers, chunks, err):
 def fzt_line(p, snapshot, send_fail_at):
     """Line for fztdriver (FzTMain.lean): the fzdriver line + whether the stream object has close() + the failing send index."""
     has_close = p['stream'] is not None and p['stream']['kind'] in ('file', 'iter')
-    return fz_line(p, snapshot) + f" close={1 if has_close else 0} xf={'-' if send_fail_at is None else send_fail_at}"
+    return fz_line(p, snapshot, asgi_items=True) + f" close={1 if has_close else 0} xf={'-' if send_fail_at is None else send_fail_at}"
+
+
+def hist_line(p, snapshot):
+    """Line for fz2driver's `hist` command (Fh.run + Fh.wsgiH / Fh.asgiH): the response as the responder finds it, the
+    operations of the history in order (T/D/M = assignment of text / data / media: hex, `none`, for media the serialised
+    value; R:<0|1> = render_body() call + whether serialising the media assigned at that moment raises; H:k:v = header
+    dict assignment) and the stream assigned afterwards."""
+    B = lambda b: 'none' if b is None else hx(b)  # noqa: E731
+    hdr_ops = ['H:' + hs(k) + ':' + hs(v) for k, v in header_assignments(p)]
+    flags = hist_render_flags(p)
+    ops = []
+    for op in p['hist']:
+        if op[0] == 'text':
+            ops.append('T:' + B(None if op[1] is None else op[1].encode()))
+        elif op[0] == 'data':
+            ops.append('D:' + B(op[1]))
+        elif op[0] == 'media':
+            ops.append('M:' + B(None if op[1] is None else b'' if op[1] == 'unserialisable' else media_bytes(op[1])))
+        else:
+            ops.append('R:%d' % flags.pop(0))
+    ops = hdr_ops + ops if hist_hdr_first(p) else ops + hdr_ops
+    st = p['stream']
+    stream = '-' if st is None else ('f' if st['kind'].startswith('file') else 'i') + ':' + (','.join(hx(c) for c in st['chunks']) or '.')
+    fail = '-' if st is None or st['fail'] is None else st['fail']
+    return (f"hist status={p['code']} head={1 if p['method'] == 'HEAD' else 0} stream={stream} fail={fail} "
+            f"cookies={';'.join(hs(c) for c in snapshot['cookies']) or '.'} dflt={hs(p['dflt'])} fw={1 if p['fw'] else 0} "
+            f"ops={';'.join(ops) or '.'}")
+
+
+def show_renders(renders):
+    return ','.join('raises' if r == 'raises' else 'none' if r is None else hx(r) for r in renders) or '.'
 
 
 def fzt_show(sent, closes, raised):
@@ -354,5 +535,6 @@ def fzt_show(sent, closes, raised):
             hl = [(k, norm_cookie(v) if k == 'set-cookie' else v) for k, v in hl]
             evs.append(f"S:{m['status']}:{';'.join(hs(k) + ':' + hs(v) for k, v in hl)}")
         else:
-            evs.append(f"B:{hx(m.get('body', b''))}:{'t' if m.get('more_body', False) else 'f'}")
+            body = m.get('body', b'')
+            evs.append(f"B:{hx(body) if isinstance(body, (bytes, bytearray)) else type(body).__name__}:{'t' if m.get('more_body', False) else 'f'}")
     return f"{','.join(evs)}|{closes}|{1 if raised else 0}"
